@@ -14,7 +14,8 @@ res() { echo "RESULT $name: $*"; }
 democmd=$(grep -E "go test" $out/demo.txt | head -1 | sed 's/^[^g]*go test/go test/; s/`//g')
 for f in $out/*.go; do
   base=$(basename $f)
-  dest=$(grep -oE "[A-Za-z0-9_/.-]+/$base" $out/demo.txt | head -1)
+  dest=$(grep -oE "copy to \(relative to repo root\): *[A-Za-z0-9_/.-]*$base" $out/demo.txt | head -1 | sed 's/.*: *//')
+  [ -z "$dest" ] && dest=$(grep -oE "[A-Za-z0-9_/.-]+/$base" $out/demo.txt | head -1)
   if [ -z "$dest" ]; then dest=$(grep -oE "[A-Za-z0-9_/.-]+/" $out/demo.txt | head -1)$base; fi
   dest=${dest#/tmp/seed/*/}
   mkdir -p $(dirname $dest); cp $f $dest
